@@ -157,6 +157,20 @@ func NewLinearFeeFunction(maxFeeRate chainfee.SatPerKWeight,
 	// Calculate how much fee rate should be increased per block.
 	end := l.endingFeeRate
 
+	// The starting fee rate must never exceed the ending fee rate, which
+	// is the max fee rate allowed by the budget and the configured max
+	// fee rate. A caller-supplied starting fee rate (e.g. from the
+	// BumpFee RPC) or the min relay fee rate used for large conf targets
+	// is not capped by `estimateFeeRate`, so we cap it here. Otherwise
+	// the delta below would be negative and the fee function would start
+	// above its cap and then decrease.
+	if start > end {
+		log.Warnf("Starting fee rate %v exceeds ending fee rate %v, "+
+			"using the ending fee rate instead", start, end)
+
+		start = end
+	}
+
 	// The starting and ending fee rates are in sat/kw, so we need to
 	// convert them to msat/kw by multiplying by 1000.
 	delta := btcutil.Amount(end - start).MulF64(1000 / float64(l.width))
